@@ -179,6 +179,7 @@ func runC13(r *fw.Run, p *fw.Program) {
 	c13Alloc(r, p, scope)
 	c13ErrVal(r, p)
 	c13NilRet(r, p, scope)
+	c13ExploreIdx(p, scope)
 }
 
 func c13Pre(r *fw.Run, p *fw.Program, scope []*ssa.Function) {
